@@ -137,6 +137,7 @@ class FakeFSM:
         self.active = True
         self.crew_wait = False
         self.archives = 0
+        self.archive_stops = False   # C11: follow the real machine (archiving => not active)
 
     def is_pipeline_active(self):
         return self.active
@@ -145,7 +146,10 @@ class FakeFSM:
         return self.crew_wait
 
     def archiving_trigger(self):
+        # the real machine moves to `archiving`: the pipeline is no longer active
         self.archives += 1
+        if self.archive_stops:
+            self.active = False
 
 
 class FakeTransport:
